@@ -612,6 +612,33 @@ def _stress(g, key):
                 _FAILURES.append(f'change_edge_type({a!r}, {b!r}, ->) was accepted although {b!r} already reaches {a!r}')
             except Exception:  # noqa: BLE001
                 done.append('refused-cyclic-retype')
+    # 13b. the same on a ghost triangle (always possible): g1 -- g2 carrying nested metadata, g2 -> g3 -> g1; orienting the
+    #      undirected edge g1 -> g2 closes a cycle and must be refused, the edge keeps type and metadata; then all three go
+    if h // 227 % 2:
+        gs = ['zq t1', 'zq t2', 'zq t3']
+        try:
+            if not any(g.node_exists(x) for x in gs):
+                g.add_edge(gs[0], gs[1], edge_type=EdgeType.UNDIRECTED_EDGE, meta={'k': [1, {'m': 2}], 'w': 'x'})
+                g.add_edge(gs[1], gs[2])
+                g.add_edge(gs[2], gs[0])
+                _warm(g)
+                try:
+                    g.change_edge_type(gs[0], gs[1], EdgeType.DIRECTED_EDGE)
+                    _FAILURES.append('change_edge_type to -> was accepted on an edge whose orientation closes a directed cycle')
+                except Exception:  # noqa: BLE001
+                    pass
+                try:
+                    e = g.get_edge(gs[0], gs[1])
+                    if e.get_edge_type() != EdgeType.UNDIRECTED_EDGE or e.meta != {'k': [1, {'m': 2}], 'w': 'x'}:
+                        _FAILURES.append(f'a refused change_edge_type left the edge as {str(e.get_edge_type())!r} with metadata '
+                                         f'{e.meta!r} (it was -- with metadata {{"k": [1, {{"m": 2}}], "w": "x"}})')
+                except Exception as e:  # noqa: BLE001
+                    _FAILURES.append(f'after a refused change_edge_type the edge is gone ({type(e).__name__})')
+                for x in gs:
+                    g.delete_node(x)
+                done.append('ghost-triangle-refused-retype')
+        except Exception as e:  # noqa: BLE001
+            done.append('ghost-triangle-raised')
     # 14. (time-series) a lagged ghost is renamed to lag 0 in the keyword form (variable_name=, time_lag=0) and goes: the
     #     new node must be the lag-0 node of the new variable
     if is_ts and h // 223 % 2:
